@@ -78,19 +78,138 @@ def step(name):
             "state_diff": [k for k in d if k not in cachey], "cache_like_changes": cachey}
 
 
+# ------------------------------------------------------------------ systematically generated neighbours
+def _perturb(v):
+    """[(label, value)] structurally close variants of one argument: what a memo table keyed on
+    too little of its input would confuse with the original"""
+    import hashlib
+
+    out = []
+    if isinstance(v, bool) or v is None:
+        return out
+    if isinstance(v, (bytes, bytearray)):
+        b = bytes(v)
+        if b:
+            out.append(("last-bit", b[:-1] + bytes([b[-1] ^ 1])))
+            out.append(("sign-flag-bit", bytes([b[0] ^ 0x20]) + b[1:]))
+            out.append(("first-bit", bytes([b[0] ^ 0x80]) + b[1:]))
+        out.append(("plus-00", b + b"\x00"))
+        out.append(("as-memoryview", memoryview(b)))
+        out.append(("as-bytearray", bytearray(b)) if isinstance(v, bytes) else ("as-bytes", b))
+    elif isinstance(v, int):
+        out += [("+1", v + 1), ("-1", v - 1)]
+    elif callable(v) and getattr(v, "__name__", "").startswith("openssl_"):
+        out.append(("other-hash", hashlib.sha512 if "sha256" in v.__name__ else hashlib.sha256))
+        out.append(("other-hash-same-block", hashlib.sha224 if "sha256" in v.__name__ else hashlib.sha384))
+    elif isinstance(v, tuple) and v and all(SN._is_field_el(c) for c in v):
+        if len(v) == 3:
+            out.append(("scaled", tuple(c * 2 for c in v)))
+            out.append(("negated", (v[0], -v[1], v[2])))
+            out.append(("scaled+negated", (v[0] * 3, -v[1] * 3, v[2] * 3)))
+        elif len(v) == 2:
+            out.append(("negated", (v[0], -v[1])))
+    elif isinstance(v, tuple) and len(v) == 2 and all(isinstance(c, int) and not isinstance(c, bool) for c in v):
+        from py_ecc.secp256k1 import secp256k1 as _S
+        out.append(("negated", (v[0], (-v[1]) % _S.P)))
+    elif SN._is_field_el(v):
+        out.append(("+1", v + type(v).one() if hasattr(type(v), "one") else v))
+        out.append(("negated", -v))
+    elif isinstance(v, list) and v:
+        out.append(("reversed", list(reversed(v))))
+        for lbl, x in _perturb(v[0])[:2]:
+            out.append(("first:" + lbl, [x] + v[1:]))
+    return out
+
+
+def neighbour_calls(name):
+    """[(label, thunk)] the operation with ONE argument replaced by a close variant"""
+    cost, build = OPSM.get(name)
+    f, args, kwargs = build()
+    out = []
+    for i, a in enumerate(args):
+        for lbl, var in _perturb(a):
+            def thunk(i=i, var=var):
+                f2, a2, k2 = build()
+                a2 = list(a2)
+                a2[i] = var
+                return f2(*a2, **k2)
+            out.append(("arg%d:%s" % (i, lbl), thunk))
+    return out
+
+
+def task_neighbours(a, env):
+    """history [neighbour(X), X] for every operation X and every generated neighbour: X's result must
+    be the fresh-interpreter one (a memo that confuses the neighbour with X shows here)"""
+    r = R("generated-neighbour-then-operation")
+    lits = _lits_from_json(a["lits"])
+    init_process(lits)
+    fresh = a["fresh"]
+    for x in a["ops"]:
+        nb = neighbour_calls(x)
+        for lbl, thunk in nb:
+            if r.full():
+                return r
+            try:
+                thunk()
+            except Exception:  # noqa: BLE001 - the neighbour may be an invalid input; only X's result matters
+                pass
+            _W["log"].append("%s~%s" % (x, lbl))
+            rec = step(x)
+            r.ev += 2
+            r.transitions += 2
+            r.dn += 1
+            if rec["result"] != fresh[x] or rec["state_diff"] or rec["args_mutated"]:
+                # confirm in a fresh interpreter: [neighbour, X]
+                try:
+                    conf = fresh_run([x], lits, "0", neighbour=(x, lbl))
+                except Exception:  # noqa: BLE001
+                    conf = None
+                if conf is not None and (conf[-1]["result"] != fresh[x] or conf[-1]["state_diff"]):
+                    r.viol("C20:history-dependent-result-after-neighbour:%s" % x, ME + ":replay_neighbour",
+                           {"op": x, "neighbour": lbl, "lits": a["lits"], "expect": fresh[x]},
+                           "the fresh-interpreter result", rec["short"], note="after the same call with %s" % lbl)
+                else:
+                    r.notes["unconfirmed_neighbour_mismatches"] = r.notes.get("unconfirmed_neighbour_mismatches", 0) + 1
+        r.dk.add(x)
+    r.states = 1
+    if a.get("sample") and a["ops"]:
+        r.sample({"operation": a["ops"][0], "neighbours": [l for l, _ in neighbour_calls(a["ops"][0])][:8]})
+    return r
+
+
+def replay_neighbour(a):
+    lits = _lits_from_json(a["lits"])
+    init_process(lits)
+    for lbl, thunk in neighbour_calls(a["op"]):
+        if lbl == a["neighbour"]:
+            try:
+                thunk()
+            except Exception:  # noqa: BLE001
+                pass
+            break
+    rec = step(a["op"])
+    if rec["state_diff"]:
+        return {"state_changed": rec["state_diff"][:6]}
+    if rec["result"] != a["expect"]:
+        return {"op": a["op"], "after": a["neighbour"], "expected": "the fresh-interpreter result", "observed": rec["short"]}
+    return None
+
+
 def run_sequence(names, lits):
     init_process(lits)
     return [step(n) for n in names]
 
 
-def fresh_run(names, lits, hashseed="0", timeout=900):
-    """run the sequence in a freshly started interpreter; returns the list of step records"""
+def fresh_run(names, lits, hashseed="0", timeout=900, neighbour=None):
+    """run the sequence in a freshly started interpreter; returns the list of step records.
+    neighbour=(op, label): first perform that generated neighbour call of `op`"""
     env = dict(os.environ)
     env["PYTHONHASHSEED"] = hashseed
     env["PYTHONPATH"] = ROOT + (":" + env["PYTHONPATH"] if env.get("PYTHONPATH") else "")
     env["PYTHONDONTWRITEBYTECODE"] = "1"
     p = subprocess.run([sys.executable, "-m", "mc.props.C20"], cwd=ROOT, env=env, capture_output=True, text=True,
-                       input=json.dumps({"ops": names, "lits": _lits_to_json(lits)}), timeout=timeout)
+                       input=json.dumps({"ops": names, "lits": _lits_to_json(lits), "neighbour": list(neighbour) if neighbour else None}),
+                       timeout=timeout)
     if p.returncode != 0:
         raise RuntimeError("fresh interpreter failed: " + p.stderr[-1500:])
     return json.loads(p.stdout.strip().splitlines()[-1])
@@ -274,6 +393,9 @@ def run(ctx):
                                "lits": lj, "fresh": fresh, "sample": True}))
     tasks.append(("sequence", {"sub": "total-orders-of-all-operations", "seq": names + names[::-1],
                                "lits": lj, "fresh": fresh, "sample": True}))
+    nb_ops = [n for n, c in ops if c <= (1 if q else 3)]
+    for i in range(0, len(nb_ops), 4):
+        tasks.append(("neighbours", {"ops": nb_ops[i:i + 4], "lits": lj, "fresh": fresh, "sample": i == 0}))
     if not q:
         tri = [n for n, c in ops if c == 0]
         for x in tri:
@@ -289,7 +411,17 @@ def run(ctx):
 
 def _main():
     req = json.loads(sys.stdin.read())
-    recs = run_sequence(req["ops"], _lits_from_json(req["lits"]))
+    lits = _lits_from_json(req["lits"])
+    if req.get("neighbour"):
+        init_process(lits)
+        for lbl, thunk in neighbour_calls(req["neighbour"][0]):
+            if lbl == req["neighbour"][1]:
+                try:
+                    thunk()
+                except Exception:  # noqa: BLE001
+                    pass
+                break
+    recs = run_sequence(req["ops"], lits)
     sys.stdout.write("\n" + json.dumps(recs) + "\n")
 
 
